@@ -115,6 +115,9 @@ def encode(rng, wbits, total, delta=False, ref=b'', e8=False, reset_interval=0, 
                     elif mode<0.45 and r[2]<=maxoff: off=r[2]; slot=2; r[0],r[2]=r[2],r[0]
                     else:
                         off=rng.randint(1,maxoff) if rng.random()<0.7 else rng.choice([x for x in (1,2,3,maxoff,max(1,maxoff-1)) if x<=maxoff])
+                        if early==2 and 32768<=p<32768+200 and rng.random()<0.6:
+                            # hostile: in a later frame, a match reaching beyond everything decoded so far (into window cells never written)
+                            off=rng.randint(p+1, min(p+rng.choice([1,3,1000,30000]), wsize-3))
                         fo=off+2; slot=max(i for i in range(nslots) if POSBASE[i]<=fo)
                         if fo-POSBASE[slot] >= (1<<extra_of(slot)): 
                             toks.append(('L',rng.randrange(256))); p+=1; continue
